@@ -351,6 +351,59 @@ func Cmp(op string, a, b Term) Term {
 	return App(SBool, op, a, b)
 }
 
+
+// splitOffset recognises `(+ X c)` / `(- X c)` with literal c and returns (X, c).
+func splitOffset(t Term) (Term, *big.Int, bool) {
+	if t.Sort != SInt || len(t.S) < 5 || t.S[0] != '(' {
+		return t, nil, false
+	}
+	op := t.S[1]
+	if (op != '+' && op != '-') || t.S[2] != ' ' {
+		return t, nil, false
+	}
+	body := t.S[3 : len(t.S)-1]
+	// split into exactly two top-level args
+	depth := 0
+	cut := -1
+	for i := 0; i < len(body); i++ {
+		switch body[i] {
+		case '(':
+			depth++
+		case ')':
+			depth--
+		case ' ':
+			if depth == 0 {
+				if cut >= 0 {
+					return t, nil, false
+				}
+				cut = i
+			}
+		}
+	}
+	if cut < 0 {
+		return t, nil, false
+	}
+	a, b := body[:cut], body[cut+1:]
+	c, ok := intLit(Term{b, SInt})
+	if !ok {
+		return t, nil, false
+	}
+	if op == '-' {
+		c = new(big.Int).Neg(c)
+	}
+	return Term{a, SInt}, c, true
+}
+
+func addConst(x Term, c *big.Int) Term {
+	if c.Sign() == 0 {
+		return x
+	}
+	if c.Sign() < 0 {
+		return App(SInt, "-", x, BigInt(new(big.Int).Neg(c)))
+	}
+	return App(SInt, "+", x, BigInt(c))
+}
+
 func Add(a, b Term) Term {
 	a, b = coerce2(a, b)
 	if a.Sort == SInt {
@@ -364,6 +417,15 @@ func Add(a, b Term) Term {
 		}
 		if ok2 && y.Sign() == 0 {
 			return a
+		}
+		if ok1 && !ok2 {
+			a, b, x, y, ok1, ok2 = b, a, y, x, ok2, ok1
+		}
+		if ok2 {
+			if base, c, ok := splitOffset(a); ok {
+				return addConst(base, new(big.Int).Add(c, y))
+			}
+			return addConst(a, y)
 		}
 	} else if a.Sort == SReal {
 		x, ok1 := realLit(a)
@@ -391,6 +453,12 @@ func Sub(a, b Term) Term {
 		}
 		if ok2 && y.Sign() == 0 {
 			return a
+		}
+		if ok2 {
+			if base, c, ok := splitOffset(a); ok {
+				return addConst(base, new(big.Int).Sub(c, y))
+			}
+			return addConst(a, new(big.Int).Neg(y))
 		}
 	} else if a.Sort == SReal {
 		x, ok1 := realLit(a)
